@@ -1630,4 +1630,308 @@ theorem j_advanceTo (t fuel : Nat) (w : W) (h : J w) : J (W.advanceTo t fuel w) 
       exact j_frame h ⟨rfl, rfl, rfl, ⟨rfl, rfl⟩⟩ rfl rfl
     · exact j_frame h ⟨rfl, rfl, rfl, ⟨rfl, rfl⟩⟩ rfl rfl
 
+
+/-! ## Harness operations; the excluded histories -/
+
+/-- (F4) killing `aid` now would make a completion stale: it is alive, it is the worker of a pool
+slot, and a `Finished` report of that slot still waits in the factory's mailbox -/
+def W.staleKill (w : W) (aid : Nat) : Bool :=
+  match w.env.getActor aid with
+  | some a => a.alive && w.pool.any (fun p => p.actor == aid && !(finKeys p.wid w.inbox).isEmpty)
+  | none => false
+
+def Op.isStaleAt (w : W) : Op → Bool
+  | .kill aid => w.staleKill aid
+  | _ => false
+
+/-- no step of the run kills a worker incarnation whose completion report the factory has not
+processed yet — the exact, model-level form of the oracle's classifier `noStaleCompletion` -/
+def noStaleRun : W → List Step → Bool
+  | _, [] => true
+  | w, s :: rest =>
+    !(s.op.isStaleAt (W.advanceTo s.t0 (advanceFuel w s.t0) w)) && noStaleRun (w.stepOp s.op s.t0 s.tq s.te) rest
+
+theorem staleKill_false {w : W} {aid : Nat} (hs : w.staleKill aid = false) (hst : Core (fkOf w.inbox) w) :
+    ∀ p ∈ w.pool, p.actor = aid → fkOf w.inbox p.wid = [] := by
+  intro p hp hpa
+  obtain ⟨a, g, _, hal, hdead⟩ := hst.sa p hp
+  rw [hpa] at g
+  unfold W.staleKill at hs
+  rw [g] at hs
+  simp only [Bool.and_eq_false_imp] at hs
+  cases hx : a.alive with
+  | false => exact (hdead hx).2
+  | true =>
+    have := hs hx
+    have h2 := List.any_eq_false.mp this p hp
+    simp only [hpa, beq_self_eq_true, Bool.true_and, Bool.not_eq_true', Bool.not_eq_false] at h2
+    simpa [fkOf] using h2
+
+theorem j_emit (w : W) (ev : Ev) (h : J w) : J (w.emit ev) :=
+  j_frame h ⟨rfl, rfl, rfl, envEq_emit _ _⟩ rfl rfl
+
+theorem j_finish (w : W) (aid : Nat) (ok : Bool) (h : J w) : J (w.finish aid ok) := by
+  unfold W.finish
+  cases g : w.env.getActor aid with
+  | none => exact h
+  | some a =>
+    simp only
+    cases hr : a.running with
+    | none => exact h
+    | some j =>
+      simp only
+      split
+      · exact h
+      · rename_i hal0
+        have hal : a.alive = true := by simpa using hal0
+        have haid := getActor_aid g
+        rcases h with h | h
+        · left
+          split
+          · exact h
+          · unfold W.send; simp only [h, if_true]
+        · -- the actor runs a job: it is the worker of a slot that books exactly this job
+          have hheld : a.heldJobs = j :: a.mailbox := by simp only [Actor.heldJobs, hr, List.cons_append, List.nil_append]
+          have hslot : ∃ p ∈ w.pool, p.actor = aid := by
+            apply Classical.byContradiction
+            intro hc
+            have := (h.free aid a g hal (fun p hp hpa => hc ⟨p, hp, hpa⟩)).1
+            rw [hheld] at this; cases this
+          obtain ⟨p, hp, hpa⟩ := hslot
+          obtain ⟨x, gx, hxw, hxa, _⟩ := h.sa p hp
+          rw [hpa, g] at gx; cases gx
+          obtain ⟨hstop, heq⟩ := hxa hal
+          have hone := (h.slot p hp).one
+          have hlen : (p.curr.map (·.1)).length ≤ 1 := by simpa using hone
+          rw [heq, hheld] at hlen
+          simp only [List.map_cons, List.cons_append, List.length_cons, List.length_append, List.length_map] at hlen
+          have hmb : a.mailbox = [] := List.eq_nil_of_length_eq_zero (by omega)
+          have hfk : fkOf w.inbox p.wid = [] := List.eq_nil_of_length_eq_zero (by omega)
+          split
+          · -- the worker fails: it dies holding its job, no report of its slot is pending
+            right
+            refine core_die (w := w.emit (.died aid)) (h.frame ⟨rfl, rfl, rfl, envEq_emit _ _⟩) aid ?_ rfl rfl rfl rfl
+            intro q hq hqa
+            have : q = p := h.actor_inj hq hp (hqa.trans hpa.symm)
+            subst this; exact hfk
+          · -- the worker returns Ok: it reports `Finished(wid, key)` and is idle
+            by_cases hst : w.stopped = true
+            · left; unfold W.send; simp only [hst, if_true]
+            · right
+              have hst' : w.stopped = false := by simpa using hst
+              unfold W.send
+              simp only [hst', Bool.false_eq_true, if_false]
+              generalize ha' : ({ a with running := none } : Actor) = a'
+              have haid' : a'.aid = aid := by subst ha'; exact haid
+              have hheld' : a'.heldJobs = [] := by subst ha'; simp only [Actor.heldJobs, hmb, List.append_nil]
+              -- its own task has nothing to take next
+              have hsettle : ∀ e : Env, e.getActor aid = some a' → e.settleOne aid = e := by
+                intro e ge
+                unfold Env.settleOne
+                rw [ge]
+                have h1 : a'.alive = true := by subst ha'; exact hal
+                have h2 : a'.running = none := by subst ha'; rfl
+                have h3 : a'.stopReq = false := by subst ha'; exact hstop
+                have h4 : a'.mailbox = [] := by subst ha'; exact hmb
+                simp [h1, h2, h3, h4]
+              generalize he1 : (w.env.emit (.finishOk aid)).emit (.handled aid j.id) = e1
+              have ge1 : e1.getActor a'.aid = some a := by subst he1; rw [haid']; exact g
+              have gs := getActor_setActor_self e1 a a' ge1
+              rw [haid'] at gs
+              rw [hsettle _ gs]
+              have st := envStep_setActor e1 a a' ge1 (by subst ha'; rfl)
+              rw [haid'] at st
+              have hsup : (e1.setActor a').sup = w.env.sup := by rw [st.sup]; subst he1; rfl
+              have hoth : ∀ b, b ≠ aid → (e1.setActor a').getActor b = w.env.getActor b := by
+                intro b hb; rw [st.other b hb]; subst he1; rfl
+              have hfk' : ∀ x, fkOf (w.inbox ++ [.finished a.wid j.key]) x =
+                  if x = a.wid then fkOf w.inbox x ++ [j.key] else fkOf w.inbox x := by
+                intro x
+                simp only [fkOf, finKeys_append, finKeys]
+                by_cases hx : x = a.wid
+                · subst hx; simp
+                · have : (a.wid == x) = false := by simp; exact fun h => hx h.symm
+                  simp [this, hx]
+              refine ⟨h.slot.of_pool rfl, h.nodupW, ?_, ?_, h.by1, h.by2, ?_, ?_, ?_⟩
+              · intro b y hb
+                by_cases hba : b = aid
+                · subst hba; exact h.aidLt _ a g
+                · simp only at hb; rw [hoth b hba] at hb; exact h.aidLt b y hb
+              · intro b hb
+                simp only at hb ⊢
+                rw [hsup] at hb
+                obtain ⟨y, gy, hy⟩ := h.supDead b hb
+                by_cases hba : b = aid
+                · subst hba; rw [g] at gy; cases gy; rw [hal] at hy; cases hy
+                · exact ⟨y, by rw [hoth b hba]; exact gy, hy⟩
+              · intro q hq
+                simp only at hq ⊢
+                by_cases hqa : q.actor = aid
+                · have : q = p := h.actor_inj hq hp (hqa.trans hpa.symm)
+                  subst this
+                  refine ⟨a', by rw [hqa]; exact gs, by subst ha'; exact hxw, ?_, ?_⟩
+                  · intro _
+                    refine ⟨by subst ha'; exact hstop, ?_⟩
+                    rw [hfk', hxw, if_pos rfl, hfk, hheld', heq, hheld, hmb, hfk]
+                    rfl
+                  · intro hx; subst ha'; rw [hal] at hx; cases hx
+                · have hqw : q.wid ≠ a.wid := by
+                    intro hc
+                    have : q = p := nodupW_eq_of_wid h.nodupW hq hp (hc.trans hxw)
+                    subst this; exact hqa hpa
+                  rw [hfk', if_neg hqw]
+                  exact (h.sa q hq).keep rfl rfl rfl (hoth _ hqa) hsup
+              · intro b y hb hyl hn
+                simp only at hb hn
+                by_cases hba : b = aid
+                · subst hba; exact absurd hpa (hn p hp)
+                · rw [hoth b hba] at hb; exact h.free b y hb hyl hn
+              · intro x hn
+                simp only at hn
+                have hx : x ≠ a.wid := fun hc => hn p hp (hxw.symm.trans hc.symm)
+                rw [hfk', if_neg hx]
+                exact h.fin x hn
+
+theorem j_release_tail (w0 : W) (n : Nat) (h0 : J w0) :
+    J ((if w0.poolSize != n then w0.resizePool n else w0).calcRest.afterHandle) := by
+  have h1 : J (if w0.poolSize != n then w0.resizePool n else w0) := by
+    split
+    · rcases h0 with h0 | h0
+      · left; rw [(ctl_resizePool w0 n).stopped]; exact h0
+      · right; rw [(ctl_resizePool w0 n).inbox]; exact core_resizePool w0 n h0
+    · exact h0
+  generalize (if w0.poolSize != n then w0.resizePool n else w0) = w1 at h1
+  have h2 : J w1.calcRest := by
+    rcases h1 with h1 | h1
+    · left; rw [(ctl_calcRest w1).stopped]; exact h1
+    · right; rw [(ctl_calcRest w1).inbox]; exact core_calcRest w1 h1
+  obtain ⟨f, hi, hs⟩ := afterHandle_act w1.calcRest
+  exact j_frame h2 f hi hs
+
+theorem j_applyOp (w : W) (op : Op) (h : J w) (hns : op.isStaleAt w = false) : J (w.applyOp op) := by
+  cases op with
+  | dispatch id key hash ttl acc =>
+    simp only [W.applyOp]
+    split
+    · exact h
+    · exact j_send _ _ (fun _ => rfl) (j_emit _ _ h)
+  | finish aid ok => exact j_finish w aid ok h
+  | kill aid =>
+    simp only [W.applyOp]
+    rcases h with h | h
+    · left; exact h
+    · right
+      refine core_die (w := w.emit (.died aid)) (h.frame ⟨rfl, rfl, rfl, envEq_emit _ _⟩) aid ?_ rfl rfl rfl rfl
+      exact staleKill_false (w := w) hns h
+  | resize n => exact j_send _ _ (fun _ => rfl) (j_emit _ _ h)
+  | settings d n =>
+    simp only [W.applyOp]
+    apply j_send _ _ (fun _ => rfl)
+    cases d with
+    | none => cases n with
+      | none => exact h
+      | some n => exact j_emit _ _ h
+    | some d => cases n with
+      | none => exact j_emit _ _ h
+      | some n => exact j_emit _ _ (j_emit _ _ h)
+  | drain => exact j_send _ _ (fun _ => rfl) (j_emit _ _ h)
+  | setHandler hd => exact j_send _ _ (fun _ => rfl) (j_emit _ _ h)
+  | advance => exact h
+  | block => exact j_frame h ⟨rfl, rfl, rfl, EnvEq.refl _⟩ rfl rfl
+  | release n =>
+    simp only [W.applyOp]
+    split
+    · exact j_release_tail ({ w.emit (.released n) with blocked := false } : W) n
+        (j_frame h ⟨rfl, rfl, rfl, envEq_emit _ _⟩ rfl rfl)
+    · exact h
+  | nop => exact h
+
+theorem j_ask (w : W) (m : FMsg) (hm : ∀ x, finKeys x [m] = []) (h : J w) : J (w.ask m) := by
+  unfold W.ask
+  split
+  · exact j_frame h ⟨rfl, rfl, rfl, EnvEq.refl _⟩ rfl rfl
+  · simp only
+    have h1 := j_runQ RUN_FUEL _ (j_send w m hm h)
+    split
+    · exact j_frame h1 ⟨rfl, rfl, rfl, EnvEq.refl _⟩ rfl rfl
+    · exact h1
+
+theorem j_queries (w : W) (h : J w) : J w.queries := by
+  unfold W.queries
+  split
+  · exact j_frame h ⟨rfl, rfl, rfl, EnvEq.refl _⟩ rfl rfl
+  · exact j_ask _ _ (fun _ => rfl) (j_ask _ _ (fun _ => rfl) (j_ask _ _ (fun _ => rfl)
+      (j_frame h ⟨rfl, rfl, rfl, EnvEq.refl _⟩ rfl rfl)))
+
+theorem j_stepOp (w : W) (op : Op) (t0 tq te : Nat) (h : J w)
+    (hns : op.isStaleAt (W.advanceTo t0 (advanceFuel w t0) w) = false) : J (w.stepOp op t0 tq te) := by
+  unfold W.stepOp
+  simp only
+  generalize hw1 : W.advanceTo t0 (advanceFuel w t0) w = w1 at hns
+  have h1 : J w1 := by rw [← hw1]; exact j_advanceTo _ _ _ h
+  generalize hw2 : W.runQ RUN_FUEL (w1.applyOp op) = w2
+  have h2 : J w2 := by rw [← hw2]; exact j_runQ _ _ (j_applyOp _ _ h1 hns)
+  generalize hw3 : W.advanceTo tq (advanceFuel w2 tq) w2 = w3
+  have h3 : J w3 := by rw [← hw3]; exact j_advanceTo _ _ _ h2
+  generalize hw4 : w3.queries = w4
+  have h4 : J w4 := by rw [← hw4]; exact j_queries _ h3
+  generalize hw5 : W.advanceTo te (advanceFuel w4 te) w4 = w5
+  have h5 : J w5 := by rw [← hw5]; exact j_advanceTo _ _ _ h4
+  exact j_frame h5 ⟨rfl, rfl, rfl, envEq_emit _ _⟩ rfl rfl
+
+theorem j_runSteps (w : W) (steps : List Step) (h : J w) (hns : noStaleRun w steps = true) : J (w.runSteps steps) := by
+  induction steps generalizing w with
+  | nil => exact h
+  | cons s rest ih =>
+    unfold noStaleRun at hns
+    simp only [Bool.and_eq_true, Bool.not_eq_eq_eq_not, Bool.not_true] at hns
+    unfold W.runSteps
+    exact ih _ (j_stepOp w s.op s.t0 s.tq s.te h hns.1) hns.2
+
+theorem j_init (c : CaseCfg) : J (init c) := by
+  right
+  unfold init
+  simp only
+  generalize hw0 : ({
+    cfg := c.cfg, poolSize := 0, pool := [], byActor := [], avail := [], inQ := [], last := 0
+    rl := c.rl.map fun (r : Nat × Nat × Nat × Nat) =>
+      let lc : LeakyBucket.Cfg := ⟨r.1, r.2.1, r.2.2.1, 10 ^ 40⟩
+      (lc, LeakyBucket.new lc (some r.2.2.2) 0)
+    queue := [], disc := c.disc, drain := .notDraining
+    handler := if c.cfg.hasHandler then some 0 else none
+    env := { actors := [], log := [], now := 0, sup := [] }
+    nextAid := 0, stopSignal := false, stopped := false, inbox := [], blocked := false, armed := false
+    nextCalc := CALCULATE_FREQUENCY, answers := [], lastWq := none } : W) = w0
+  have hi0 : w0.inbox = [] := by subst hw0; rfl
+  have h0 : Core (fkOf []) w0 := by
+    subst hw0
+    refine ⟨?_, List.nodup_nil, ?_, ?_, ?_, ?_, ?_, ?_, ?_⟩
+    · intro p hp; cases hp
+    · intro aid a ha; simp [Env.getActor] at ha
+    · intro aid ha; cases ha
+    · intro p hp; cases hp
+    · intro x hx; cases hx
+    · intro p hp; cases hp
+    · intro aid a ha; simp [Env.getActor] at ha
+    · intro _ _; rfl
+  have h1 := core_growPool w0 c.n h0
+  have hi1 : (w0.growPool c.n).inbox = [] := by
+    have : ∀ (l : List Nat) (w : W) (f : W → Nat → Nat), (l.foldl (fun w i => w.growOne (f w i)) w).inbox = w.inbox := by
+      intro l
+      induction l with
+      | nil => intro w f; rfl
+      | cons x xs ih => intro w f; simp only [List.foldl_cons]; rw [ih]; exact (ctl_growOne w _).inbox
+    unfold W.growPool
+    rw [this _ _ (fun w i => w.poolSize + i)]
+    exact hi0
+  show Core (fkOf (W.emit { w0.growPool c.n with poolSize := c.n } (.hook .started)).inbox) _
+  have : (W.emit { w0.growPool c.n with poolSize := c.n } (.hook .started)).inbox = [] := hi1
+  rw [this]
+  exact h1.frame ⟨rfl, rfl, rfl, envEq_emit _ _⟩
+
+/-- (F4 excluded) bookkeeping and worker actors agree after every run without a stale completion -/
+theorem j_always (c : CaseCfg) (steps : List Step) (hns : noStaleRun (init c) steps = true) :
+    J ((init c).runSteps steps) :=
+  j_runSteps _ steps (j_init c) hns
+
 end Factory
